@@ -2,6 +2,7 @@ package lint
 
 import (
 	"fmt"
+	"go/token"
 	"go/types"
 	"strings"
 
@@ -315,6 +316,37 @@ func runC10(c *Ctx) {
 	// ---------- R10.4 lazy load gate
 	c.Rule("R10.4", "E1", "inmem.State: every public method passes loadStore()==nil before touching a collection; loaded.Store(true) only after Load()==nil, under storeMu, flag re-checked under the lock", 11)
 	loadGate(c, "R10.4")
+
+	// ---------- R10.5 the bytes handed to the store belong to the caller
+	c.Rule("R10.5", "E3", "MarshalResource / Encrypt return bytes that share no storage with anything the marshaler keeps (a pooled buffer, a field, a global): what an acknowledged write put into the store cannot be overwritten by the next call", 3)
+
+	for _, f := range p.AllOwnFuncs() {
+		if f.Parent() != nil || f.Signature.Recv() == nil || funcPkg(f) == nil || !strings.HasPrefix(funcPkg(f).Pkg.Path(), Mod+"pkg/state/impl/store") {
+			continue
+		}
+
+		if f.Name() != "MarshalResource" && f.Name() != "Encrypt" {
+			continue
+		}
+
+		c.Touch(f)
+
+		bad := ""
+
+		for _, in := range Find(f, IsReturn) {
+			r := in.(*ssa.Return)
+			if len(r.Results) == 0 {
+				continue
+			}
+
+			if why := p.sharedBytesOrigin(r.Results[0]); why != "" {
+				bad = why
+			}
+		}
+
+		c.Check(bad == "", "R10.5", FuncName(f)+" :: returned bytes are owned by the caller", fpos(f), "fresh", "the returned slice shares storage with "+bad+": the next call overwrites bytes the caller (the backing store) still holds")
+	}
+
 }
 
 func loadGate(c *Ctx, rule string) {
@@ -407,4 +439,152 @@ func StaticOrClosureCallee2(call ssa.CallInstruction, argIdx int) *ssa.Function 
 	}
 
 	return nil
+}
+
+// sharedBytesOrigin walks a byte slice back through slicing, append bases, destination arguments of
+// calls and joins; it returns a description of the first place it finds that outlives the call (an
+// object taken from a sync.Pool, a field reached from the receiver, a global), also when a value on
+// that chain is stored into such a place or Put into a pool; "" when the slice is the callee's own.
+func (p *Program) sharedBytesOrigin(v ssa.Value) string {
+	seen := map[ssa.Value]bool{}
+
+	var shared func(addr ssa.Value, d int) string
+
+	shared = func(addr ssa.Value, d int) string {
+		if d > 8 || addr == nil {
+			return ""
+		}
+
+		switch x := addr.(type) {
+		case *ssa.Global:
+			return "the package variable " + x.Name()
+		case *ssa.FieldAddr:
+			if prm, ok := x.X.(*ssa.Parameter); ok && len(prm.Parent().Params) > 0 && prm.Parent().Params[0] == prm && prm.Parent().Signature.Recv() != nil {
+				return "the receiver's field " + fieldName(x.X, x.Field)
+			}
+
+			return shared(x.X, d+1)
+		case *ssa.UnOp:
+			return shared(x.X, d+1)
+		case *ssa.TypeAssert:
+			return shared(x.X, d+1)
+		case *ssa.Extract:
+			return shared(x.Tuple, d+1)
+		case *ssa.IndexAddr:
+			return shared(x.X, d+1)
+		case *ssa.Phi:
+			for _, e := range x.Edges {
+				if e == ssa.Value(x) {
+					continue
+				}
+
+				if w := shared(e, d+1); w != "" {
+					return w
+				}
+			}
+		case *ssa.Call:
+			if p.CalleeName(x) == "(*sync.Pool).Get" {
+				return "an object taken from a sync.Pool"
+			}
+		}
+
+		return ""
+	}
+
+	isBytes := func(t types.Type) bool {
+		sl, ok := t.Underlying().(*types.Slice)
+		if !ok {
+			return false
+		}
+
+		b, ok := sl.Elem().Underlying().(*types.Basic)
+
+		return ok && b.Kind() == types.Uint8
+	}
+
+	var walk func(v ssa.Value, d int) string
+
+	walk = func(v ssa.Value, d int) string {
+		if v == nil || seen[v] || d > 12 {
+			return ""
+		}
+
+		seen[v] = true
+
+		// kept: stored into a lasting place, or returned to a pool
+		if refs := v.Referrers(); refs != nil {
+			for _, r := range *refs {
+				switch x := r.(type) {
+				case *ssa.Store:
+					if x.Val == v {
+						if w := shared(x.Addr, 0); w != "" {
+							return w + " (it is stored there)"
+						}
+					}
+				case *ssa.Call:
+					if p.CalleeName(x) == "(*sync.Pool).Put" {
+						return "an object put back into a sync.Pool"
+					}
+				case *ssa.Defer:
+					if p.CalleeName(x) == "(*sync.Pool).Put" {
+						return "an object put back into a sync.Pool"
+					}
+				}
+			}
+		}
+
+		switch x := v.(type) {
+		case *ssa.Slice:
+			return walk(x.X, d+1)
+		case *ssa.Phi:
+			for _, e := range x.Edges {
+				if w := walk(e, d+1); w != "" {
+					return w
+				}
+			}
+		case *ssa.Extract:
+			return walk(x.Tuple, d+1)
+		case *ssa.ChangeType:
+			return walk(x.X, d+1)
+		case *ssa.MakeInterface:
+			return walk(x.X, d+1)
+		case *ssa.UnOp:
+			if x.Op != token.MUL {
+				return ""
+			}
+
+			if w := shared(x.X, 0); w != "" {
+				return w
+			}
+
+			if al, ok := x.X.(*ssa.Alloc); ok {
+				for _, st := range AllStores(al) {
+					if w := walk(st.Val, d+1); w != "" {
+						return w
+					}
+				}
+			}
+		case *ssa.Call:
+			if b, ok := x.Call.Value.(*ssa.Builtin); ok {
+				if b.Name() == "append" && len(x.Call.Args) > 0 {
+					return walk(x.Call.Args[0], d+1)
+				}
+
+				return ""
+			}
+
+			// a callee that is given byte slices may return (storage of) one of them
+			for _, a := range CallArgs(x) {
+				if isBytes(a.Type()) {
+					if w := walk(a, d+1); w != "" {
+						return w
+					}
+				}
+			}
+		}
+
+		return ""
+	}
+
+	return walk(v, 0)
 }
